@@ -65,7 +65,15 @@ def strategy_impl(draw, tier):
     sizes.update({e[0]: e[1] for e in extra})
     order = draw(gen.permutations_of(dims))
     shape = [sizes[d] for d in order]
-    values = draw(gen.data_values(shape))
+    # float64 mostly; float32 (the usual model-output type) and integers are real values as well.  For those the data and
+    # the fill values are drawn from numbers both types represent exactly, so "exactly" keeps its meaning.
+    dtype = draw(st.sampled_from(["float64", "float64", "float64", "float32", "int64"]))
+    if dtype == "float64":
+        values = draw(gen.data_values(shape))
+    elif dtype == "float32":
+        values = draw(gen.data_values(shape, elements=st.integers(-512, 512).map(lambda k: k / 8.0)))
+    else:
+        values = draw(gen.data_values(shape, elements=st.integers(-99, 99).map(float)))
     settings = draw(gen.grid_settings(names, exotic=False))
     call_boundary = draw(gen.boundary_spelling(names))
     call_fill = draw(gen.fill_spelling(names))
@@ -89,6 +97,7 @@ def strategy_impl(draw, tier):
         "explicit_none": draw(st.booleans()),     # pass boundary=None / fill_value=None / to=None explicitly instead of omitting them
         "keep_coords": draw(st.sampled_from([None, True, False])),
         "data_name": draw(st.sampled_from(["phi", None])),
+        "dtype": dtype,
     }
 
 
@@ -125,7 +134,7 @@ def call_kwargs(case, to):
 
 
 def expected(case, by_name, rules, fills, targets):
-    a = np.asarray(case["values"], dtype=np.float64)
+    a = np.asarray(case["values"], dtype=np.float64).astype(case.get("dtype", "float64"))
     dims = list(case["dims"])
     nontrivial = False
     for n in case["op_axes"]:
@@ -158,7 +167,7 @@ def check(case, ctx):
             targets[n] = M.default_target(by_name[n]["positions"], case["data_pos"][n], by_name[n]["default_shifts"])
     exp, exp_dims, nontrivial = expected(case, by_name, rules, fills, targets)
 
-    da = build.data_array(case["values"], case["dims"], name=case.get("data_name", "phi"))
+    da = build.data_array(case["values"], case["dims"], name=case.get("data_name", "phi")).astype(case.get("dtype", "float64"))
     fn = getattr(grid, case["op"])
     kw = call_kwargs(case, case["to"])
     got = must_return(f"Grid.{case['op']}", fn, da, spell_axis(case["op_axes"], case["axis_spelling"]), **kw)
